@@ -54,6 +54,10 @@ def make_case(lean, d, kind, structs, rng):
             return v % catk
         if ty == 'bool' and catk is not None and catk < 2:
             return False
+        if isinstance(ty, tuple) and ty[0] == 'list' and ty[1] == 'real' and catk and 'with_cache' in lean:
+            return [gen.pos(rng) for _ in range(catk)]       # a cache vector has one entry per category
+        if isinstance(ty, tuple) and ty[0] == 'tup' and isinstance(v, tuple):
+            return tuple(fix(x, t) for x, t in zip(v, ty[1]))
         if isinstance(ty, tuple) and ty[0] == 'list' and isinstance(v, list):
             return [fix(x, ty[1]) for x in v]
         if isinstance(ty, tuple) and ty[0] == 'dos' and v[0] == 'D':
@@ -95,6 +99,10 @@ def tolerance(lean, d, kind):
     if kind == 'f32':
         return 3e-7, 1e-30
     if d['name'] in ('sf', 'cdf'):
+        return 1e-9, 1e-9
+    if d['name'] in ('ln_m', 'ln_m_with_cache', 'ln_pp', 'ln_pp_with_cache', 'ln_pp_cache', 'm', 'pp', 'pp_with_cache', 'posterior',
+                     'posterior_from_suffstat'):
+        # differences of large log-normalisers: fused vs unfused multiply-add residues are absolute, not relative
         return 1e-9, 1e-9
     return 1e-9, 1e-12
 
